@@ -691,6 +691,34 @@ func parsedSigned(info *types.Info, ff *core.FuncFacts, id *ast.Ident) string {
 	}
 	from := ""
 	for _, a := range as {
+		// the value variable of `for _, k := range keys` where keys collects parsed integers
+		// (keys = append(keys, n) with n parsed)
+		if a.RangeOf != nil && !a.IsKey {
+			if rid, ok := ast.Unparen(a.RangeOf).(*ast.Ident); ok {
+				collected := ""
+				for _, ca := range ff.Assigns(info.ObjectOf(rid)) {
+					ce, ok := ast.Unparen(ca.Rhs).(*ast.CallExpr)
+					if !ok || ca.Rhs == nil {
+						continue
+					}
+					if fn, ok := ce.Fun.(*ast.Ident); !ok || fn.Name != "append" {
+						continue
+					}
+					for _, arg := range ce.Args[1:] {
+						if aid, ok := ast.Unparen(arg).(*ast.Ident); ok {
+							if w := parsedSigned(info, ff, aid); w != "" {
+								collected = w
+							}
+						}
+					}
+				}
+				if collected != "" {
+					from = collected + " (collected in " + rid.Name + ")"
+					continue
+				}
+			}
+			return ""
+		}
 		if a.Call == nil || a.Idx != 0 {
 			return ""
 		}
